@@ -270,12 +270,10 @@ def _check_block_ignore(lines: list[str], violation: "Violation") -> bool:
 
 
 class _BlockState:
-    """Mutable state for block ignore scanning."""
+    """Mutable state for block ignore scanning: the blocks open at the current line, innermost last."""
 
     def __init__(self) -> None:
-        self.in_block = False
-        self.start_line = 0
-        self.rules: set[str] = set()
+        self.open_blocks: list[tuple[int, set[str]]] = []
 
 
 def _is_valid_line_range(line: int, max_lines: int) -> bool:
@@ -288,24 +286,25 @@ def _process_block_line(
 ) -> bool | None:
     """Process a line for block ignore, returning True/False if decided, None to continue."""
     if has_ignore_start_marker(line):
-        state.rules = _parse_ignore_start_rules(line)
-        state.in_block = True
-        state.start_line = line_num
+        state.open_blocks.append((line_num, _parse_ignore_start_rules(line)))
         return None
     if has_ignore_end_marker(line):
         return _handle_block_end(line_num, violation, state)
-    if line_num == violation.line and state.in_block:
-        return rules_match_violation(state.rules, violation.rule_id)
+    if line_num == violation.line and state.open_blocks:
+        # A block nested in another one (naming another rule) does not end or replace the enclosing block
+        return any(
+            rules_match_violation(rules, violation.rule_id) for _start, rules in state.open_blocks
+        )
     return None
 
 
 def _handle_block_end(line_num: int, violation: "Violation", state: _BlockState) -> bool | None:
-    """Handle block end marker."""
-    if state.in_block and state.start_line <= violation.line < line_num:
-        if rules_match_violation(state.rules, violation.rule_id):
-            return True
-    state.in_block = False
-    state.rules = set()
+    """Handle block end marker: it closes the innermost open block."""
+    if not state.open_blocks:
+        return None
+    start_line, rules = state.open_blocks.pop()
+    if start_line <= violation.line < line_num and rules_match_violation(rules, violation.rule_id):
+        return True
     return None
 
 
